@@ -256,8 +256,16 @@ func c01Get(tier mc.Tier) *c01Fixture {
 	return c01Fix
 }
 
+// c01Primed: base entries whose unmodified envelope this process has already given to the library once.
+var c01Primed sync.Map
+
 // c01Judge is the oracle for one mutant.
 func c01Judge(c *mc.Ctx, f *c01Fixture, media string, mutant []byte, class, desc string, entry *c01Entry) {
+	// the unmodified envelope is verified once per process before any of its mutants (so also in a replay process): whatever the
+	// library remembers from a successful verification must not make a mutant pass
+	if _, done := c01Primed.LoadOrStore(entry.name, true); !done {
+		parseVerify(entry.media, entry.env)
+	}
 	c01JudgeOrder(c, f, media, mutant, class, desc, entry, false)
 	// the same object asked for its (untrusted) content first and verified afterwards must not be more permissive
 	c01JudgeOrder(c, f, media, mutant, class, desc+" [Content() called before Verify()]", entry, true)
